@@ -79,8 +79,16 @@ fn main() {
         let tf = tfs[(i / (no * no)) as usize];
         check_functor_units::<B>(&objs[((i / no) % no) as usize], &objs[(i % no) as usize], tf, loc)
     }));
+    // larger inputs: structured diagrams with a few functors (strict trait and dyn path)
+    let stl: Vec<_> = ohmc::props::structured::shapes(3).into_iter().map(|x| x.1).collect();
+    let tfl: Vec<TF> = vec![TF { n: [1, 1, 1], recipe: 0 }, TF { n: [2, 0, 1], recipe: 1 }, TF { n: [0, 2, 1], recipe: 2 }];
+    ctx.run_slice(Slice::new(format!("structured[{} diagrams x {} functors, strict and dyn]", stl.len(), tfl.len()), stl.len() as u64 * tfl.len() as u64, |i, loc| {
+        let (f, tf) = (&stl[(i / tfl.len() as u64) as usize], tfl[(i % tfl.len() as u64) as usize]);
+        check_strict::<B>(f, tf, loc);
+        check_dyn(f, tf, loc);
+    }));
     let meta = Meta {
-        rule: "36 functors (object map label -> list of length 0, 1 or 2 per label; operation map by recipe: single operation, two-stage composite, spider-only merge, disconnected discard/create; for the lax trait additionally a composite handed over un-quotiented) crossed with every diagram of the universes (non-monogamous, cyclic, isolated nodes, zero-arity operations); strict Functor trait via define_map_arrow and lax trait via dyn_functor::define_map_arrow; result compared up to isomorphism with literal substitution on the plain model; functoriality (composition, tensor, dagger, identity, symmetry) on pairs through the public API; both Identity functors".into(),
+        rule: "36 functors (object map label -> list of length 0, 1 or 2 per label; operation map by recipe: single operation, two-stage composite, spider-only merge, disconnected discard/create; for the lax trait additionally a composite handed over un-quotiented) crossed with every diagram of the universes (non-monogamous, cyclic, isolated nodes, zero-arity operations); strict Functor trait via define_map_arrow and lax trait via dyn_functor::define_map_arrow; result compared up to isomorphism with literal substitution on the plain model; functoriality (composition, tensor, dagger, identity, symmetry) on pairs through the public API; both Identity functors; plus four-node diagrams over a THIRD node label and diagrams with three hyperedges (four functors, strict and dyn path)".into(),
         bounds: "diagrams: <=2 nodes, <=1 (quick) / 2 hyperedges of arity <=2, interfaces <=1, 2+2 labels; 3-node diagrams with <=2 hyperedges (prefix in quick); functoriality on pairs of <=2 nodes / <=1 hyperedge".into(),
         assumptions: vec!["the functor family is finite: object images of length <=2, four/five operation recipes".into()],
         explanation: "explicit enumeration of programs (functors) x inputs (diagrams); every application is the real spider-decomposition code".into(),
